@@ -411,4 +411,4 @@ def enum_cases():
 def search(ctx):
     thorough = ctx.tier == "thorough"
     ctx.enumerate(enum_cases(), "enabled x rtr_allowed combinations; COB-ID swap of two maps")
-    ctx.hypothesis(case_strategy(), 3000 if thorough else 1200)
+    ctx.hypothesis(case_strategy(), 8000 if thorough else 1200)
